@@ -4,6 +4,23 @@ claim("C01", "exploration",
       "Every execution of the real Scheduler with at most d deviations from a canonical fair schedule (coarse: protocol steps, fine: every atomic/lock operation) is enumerated for a family of small, conflict-forcing blocks across specs, nonce-check settings and worker counts; outcomes, error and the complete bundle (reverts, sizes) are compared with an independent in-order stock-revm run. Universally quantified over schedules within the bound, which unit tests can only sample.",
       "DESIGN.md §4 C01", SCHED_NOTE)
 
+claim("C02", "exploration",
+      "stateless model checking: deviation-bounded DFS over schedules of the real scheduler, oracle on every ordered-commit event vs. the in-order reference",
+      "Every commit event of every explored execution (hooked inside ordered commit: txid, ExecutionResult, touched-account delta after fee folding, committed cursor) is compared with the corresponding step of an in-order stock-revm run, so a stale speculative result that is later overwritten cannot be masked by the end state. Conflict-heavy drivers, coarse bound up to 3-4 and fine bound up to 2-3.",
+      "DESIGN.md §4 C02", SCHED_NOTE)
+claim("C03", "exploration",
+      "bounded exhaustive enumeration of blocks over a validity alphabet x configurations x deviation-bounded schedule DFS, oracle = in-order stock revm",
+      "All blocks of length <= 3 over 14 validity templates (nonce low/high/overflow, funds, intrinsic gas, fee below base fee, sender with code, validity made or destroyed by an earlier in-block transaction) in every placement, nonce check on/off, parallel / below-threshold / forced-sequential paths; Skipped(e) must carry exactly the reference's InvalidTransaction value and the bundle must equal the reference's.",
+      "DESIGN.md §4 C03", SCHED_NOTE)
+claim("C04", "fault_enumeration",
+      "fault enumeration: every database key read (in order or only by stale attempts) x {persistent, fail-once} x deviation-bounded schedule DFS, oracle = in-order reference on the same faulty database",
+      "For each driver block every database key the in-order run reads plus the keys only a stale speculative attempt reads is made to fail persistently or once; under every schedule within the bound the result must be the reference's error (same value and index, exact outcome/state prefix), and a fault on a key in-order execution never reads must stay invisible. The stale-attempt-at-head window (finding F2, now fixed) is explored at attempt granularity with bound 4-5.",
+      "DESIGN.md §4 C04, §5 F2", SCHED_NOTE)
+claim("C05", "exploration",
+      "stateless model checking with deadlock/livelock detection: deviation-bounded DFS at fine granularity, parks without timeout",
+      "Every explored execution must return: a parked coordinator has no timeout under the controlled scheduler, so a lost wake-up is a detected deadlock and a spinning worker a detected livelock (step cap under a fair suffix). Dependency shapes (independent, chain, fan-in, late conflict, error parked behind the commit boundary, nonce mismatch at commit, fatal error, database panic at the j-th call for every j) x 1-3 workers; the returned result must also be the reference's, and an injected panic must reach the caller unchanged.",
+      "DESIGN.md §4 C05", SCHED_NOTE)
+
 _pending = "check not built yet in this round; tracked in DESIGN.md §10 (build order)"
-for pid in ["C02","C03","C04","C05","C06","C07","C08","C09","C10","C11","C12","C13","C14","C15","C16","C17"]:
+for pid in ["C06","C07","C08","C09","C10","C11","C12","C13","C14","C15","C16","C17"]:
     NOT_APPLICABLE[pid] = _pending
